@@ -271,7 +271,8 @@ def gen_dtd(rng, flavour=None):
         if flavour == "prefix-attrs" and (i == 0 or rng.random() < 0.4):
             if i > 0:
                 el["attrs"].append({"name": "xmlns:p", "type": "CDATA", "values": [], "dflt": "FIXED", "value": prefixes["p"]})
-            for an in rng.sample(["k", "kind", "id2", "n"], rng.choice([1, 2])):
+            taken = {_norm(a["name"].split(":")[-1]) for a in el["attrs"]}
+            for an in rng.sample([x for x in ["k", "kind", "id2", "n", "q1"] if _norm(x) not in taken], rng.choice([1, 2])):
                 a = gen_attr(rng, "p:" + an, True)
                 if a["type"] in ("IDREF", "IDREFS"):
                     a["type"] = "CDATA"
